@@ -297,3 +297,101 @@ def exact_integral(recipe, f, deg: int) -> float:
 
 def exact_measure(recipe) -> float:
     return abs(exact_integral(recipe, lambda x, y, z: np.ones_like(x), 0))
+
+
+# ------------------------------------------------------------------------------------------
+# deliberately mixed meshes: two adjacent organised blocks meshed with different element types and merged
+
+
+MIX2D = [("TRI3", "QUAD4"), ("TRI6", "QUAD8"), ("TRI6", "QUAD9"), ("QUAD8", "QUAD9")]
+MIX3D = [("PRISM6", "HEXA8"), ("PRISM15", "HEXA20"), ("PRISM18", "HEXA27")]
+
+
+@st.composite
+def merged_recipes(draw, dim=2):
+    """two rectangles [0,a]x[0,c] and [a,a+b]x[0,c] (extruded by (0,0,e) in 3D) meshed organised with the same
+    division along the interface, different element types on each side; optional affine image / renumbering"""
+    pair = draw(st.sampled_from(MIX2D if dim == 2 else MIX3D))
+    a = draw(st.integers(2, 4)) / 2.0
+    b = draw(st.integers(2, 4)) / 2.0
+    c = draw(st.integers(2, 4)) / 2.0
+    n = draw(st.integers(1, 2))  # divisions along the interface
+    e = draw(st.integers(2, 4)) / 4.0
+    A, bb = draw(affine(dim, True))
+    perm = draw(st.one_of(st.none(), st.integers(0, 999)))
+    return dict(merged=True, pair=list(pair), a=a, b=b, c=c, n=n, e=e if dim == 3 else None, dim=dim, A=A, b_aff=bb, perm=perm,
+                elemType="+".join(pair))
+
+
+@functools.lru_cache(maxsize=64)
+def _merged_mesh(key: str) -> Mesh:
+    from EasyFEA.Geoms import Domain
+
+    r = json.loads(key)
+    a, b, c, n = r["a"], r["b"], r["c"], r["n"]
+    h = c / n
+    meshes = []
+    try:
+        for (x0, x1), et in zip(((0.0, a), (a, a + b)), r["pair"]):
+            dom = Domain(Point(x0, 0.0), Point(x1, c), h)
+            if r["dim"] == 2:
+                meshes.append(Mesher().Mesh_2D(dom, [], ElemType(et), isOrganised=True))
+            else:
+                meshes.append(Mesher().Mesh_Extrude(dom, [], [0, 0, r["e"]], [2], ElemType(et), isOrganised=True))
+        mesh = Mesh.Merge(meshes)
+    except (AssertionError, Exception) as ex:
+        raise Inconclusive(f"merge: {type(ex).__name__}")
+    return mesh
+
+
+def build_merged(recipe: dict) -> Mesh:
+    base = {k: recipe[k] for k in ("pair", "a", "b", "c", "n", "e", "dim")}
+    mesh = _merged_mesh(_hash(base))
+    coord = np.array(mesh.coord, float)
+    A, b = recipe.get("A"), recipe.get("b_aff")
+    if A is not None:
+        A3 = np.eye(3)
+        An = np.array(A, float)
+        A3[: An.shape[0], : An.shape[1]] = An
+        b3 = np.zeros(3)
+        b3[: len(b)] = b
+        coord = coord @ A3.T + b3
+    p = None
+    if recipe.get("perm") is not None:
+        p = np.random.default_rng(int(recipe["perm"])).permutation(coord.shape[0])
+    if A is None and p is None:
+        return mesh.copy()
+    return rebuild(mesh, coord, p)
+
+
+def merged_boundary_nodes(mesh: Mesh, recipe: dict) -> np.ndarray:
+    """boundary nodes of a merged mesh from the geometry (the merged (dim-1) groups also contain the interface)"""
+    a, b, c, e = recipe["a"], recipe["b"], recipe["c"], recipe.get("e")
+    # undo the affine map to test in the base frame
+    coord = np.array(mesh.coord, float)
+    A, bb = recipe.get("A"), recipe.get("b_aff")
+    if A is not None:
+        A3 = np.eye(3)
+        An = np.array(A, float)
+        A3[: An.shape[0], : An.shape[1]] = An
+        b3 = np.zeros(3)
+        b3[: len(bb)] = bb
+        coord = (coord - b3) @ np.linalg.inv(A3).T
+    tol = 1e-9
+    on = (np.abs(coord[:, 0]) < tol) | (np.abs(coord[:, 0] - (a + b)) < tol) | (np.abs(coord[:, 1]) < tol) | (np.abs(coord[:, 1] - c) < tol)
+    if e is not None:
+        on |= (np.abs(coord[:, 2]) < tol) | (np.abs(coord[:, 2] - e) < tol)
+    used = used_nodes(mesh)
+    return used[on[used]]
+
+
+def build_any(recipe: dict) -> Mesh:
+    return build_merged(recipe) if recipe.get("merged") else build(recipe)
+
+
+def boundary_any(mesh: Mesh, recipe: dict) -> np.ndarray:
+    return merged_boundary_nodes(mesh, recipe) if recipe.get("merged") else boundary_nodes(mesh)
+
+
+def dim_any(recipe: dict) -> int:
+    return recipe["dim"] if recipe.get("merged") else dim_of(recipe["elemType"])
